@@ -50,13 +50,25 @@ def extract(g, X):
 
     def rollback():
         b = X.fn_body(file_rs, "save")
-        m = re.search(r"if\s+let\s+Err\((\w+)\)\s*=\s*self\.write_revision\(&\w+\)\s*\{(.*?)return\s+Err\(\1\);", b, flags=re.S)
-        if not m:
+        # a failed write_revision is undone before the error is handed on: the `Err(e)` arm of `match` / `if let Err(e) = …`
+        ws = re.search(r"self\.write_revision\(&\w+\)", b)
+        if not ws:
             return "0"
-        t1 = re.search(r"self\.backend\.truncate\((\w+)\);", m.group(2))
-        t2 = re.search(r"self\.refs\.truncate\((\w+)\);", m.group(2))
+        try:
+            arms = [a for a in X.match_arms(b, r"self\.write_revision\(&\w+\)") if re.fullmatch(r"Err\(\s*\w+\s*\)", a.pattern)]
+        except KeyError:
+            return "0"
+        if len(arms) != 1 or arms[0].guard is not None:
+            return "0"
+        e = re.fullmatch(r"Err\(\s*(\w+)\s*\)", arms[0].pattern).group(1)
+        blk = arms[0].expr
+        if not re.search(r"return\s+Err\(\s*" + e + r"\s*\)\s*;?\s*$", blk):
+            return "0"
+        t1 = re.search(r"self\.backend\.truncate\((\w+)\);", blk)
+        t2 = re.search(r"self\.refs\.truncate\((\w+)\);", blk)
         if not (t1 and t2):
             return "0"
+        m = ws
         head = b[:m.start()]
         d1 = re.search(r"let\s+" + t1.group(1) + r"\s*=\s*self\.backend\.len\(\);", head)
         d2 = re.search(r"let\s+" + t2.group(1) + r"\s*=\s*self\.refs\.len\(\);", head)
@@ -141,7 +153,7 @@ def extract(g, X):
         try:
             arm = X.match_arms(b, r"self\.changes\.get\(\s*&\w+\.id\s*\)")[0]
             pm = re.fullmatch(r"Some\(\s*\(\s*(\w+)\s*,\s*_\s*\)\s*\)", arm.pattern)
-            first = bool(pm and re.fullmatch(r"(?:return\s+)?Ok\(\s*\(\s*\*" + pm.group(1) + r"\s*\)\.clone\(\)\s*\)\s*;?", arm.expr)
+            first = bool(pm and re.fullmatch(r"(?:return\s+)?Ok\(\s*(?:\(\s*\*" + pm.group(1) + r"\s*\)|" + pm.group(1) + r")\.clone\(\)\s*\)\s*;?", arm.expr)
                          and b.index("self.changes.get(") < b.index("self.refs.get("))
         except (KeyError, ValueError):
             first = False
